@@ -272,3 +272,39 @@ Theorem C10_last_wins_order_dependent :
   exists ss ss' : list eunit, Permutation ss ss' /\ ret_last (UParam ss) = 0 /\ ret_last (UParam ss') <> 0.
 Proof. exact last_wins_order_dependent. Qed.
 Print Assumptions C10_last_wins_order_dependent.
+
+(* ---- round 5: names DERIVED from a type name (Fix/DerivedNames.v: register_global_name / c_name_clash) ---- *)
+From A1 Require Fix.DerivedNames.
+
+(* a clash is reported iff some type shares a registered name with an earlier type of another identity:
+   the module of the two plays no part *)
+Theorem C10_derived_clash_spec :
+  forall (name : Type) (neqb : name -> name -> bool), (forall a b, neqb a b = true <-> a = b) ->
+  forall ts : list (DerivedNames.ty name),
+  DerivedNames.scan name neqb ts = true <->
+  exists l1 t l2, ts = l1 ++ t :: l2 /\ exists u, In u l1 /\ DerivedNames.share name u t.
+Proof. exact DerivedNames.scan_spec. Qed.
+Print Assumptions C10_derived_clash_spec.
+
+(* the decision restricted to expressions of one module (seeded change C10-9) never reports more, agrees on
+   one-module inputs, and reports NOTHING when every type sits in a module of its own *)
+Theorem C10_same_module_clash_weaker :
+  forall (name : Type) (neqb : name -> name -> bool), (forall a b, neqb a b = true <-> a = b) ->
+  forall ts, DerivedNames.scan_same_module name neqb ts = true -> DerivedNames.scan name neqb ts = true.
+Proof. exact DerivedNames.same_module_weaker. Qed.
+Print Assumptions C10_same_module_clash_weaker.
+
+Theorem C10_same_module_clash_blind :
+  forall (name : Type) (neqb : name -> name -> bool), (forall a b, neqb a b = true <-> a = b) ->
+  forall ts : list (DerivedNames.ty name),
+  (forall l1 t l2 u, ts = l1 ++ t :: l2 -> In u l1 -> DerivedNames.tmod name u <> DerivedNames.tmod name t) ->
+  DerivedNames.scan_same_module name neqb ts = false.
+Proof. exact DerivedNames.same_module_blind. Qed.
+Print Assumptions C10_same_module_clash_blind.
+
+Theorem C10_same_module_clash_agrees_in_one_module :
+  forall (name : Type) (neqb : name -> name -> bool), (forall a b, neqb a b = true <-> a = b) ->
+  forall ts m, (forall t, In t ts -> DerivedNames.tmod name t = m) ->
+  DerivedNames.scan_same_module name neqb ts = DerivedNames.scan name neqb ts.
+Proof. exact DerivedNames.same_module_agrees_in_one_module. Qed.
+Print Assumptions C10_same_module_clash_agrees_in_one_module.
